@@ -300,6 +300,13 @@ func (sm *SecureMessaging) Encode(cApdu *CApdu) (out *CApdu, err error) {
 		return nil, err
 	}
 
+	// the protected data objects must fit the (extended) command data field: a longer field cannot be encoded
+	// (the length would wrap) - refuse, and take back the counter step as nothing will be sent
+	if smData := nodes.Encode(); len(smData) > 65535 {
+		sm.sscDecrement()
+		return nil, fmt.Errorf("[sm.Encode] protected command data too long (%d bytes, max 65535)", len(smData))
+	}
+
 	out = NewCApdu(CLA_MASK, cApdu.ins, cApdu.p1, cApdu.p2, nodes.Encode(), calcSmLe(cApdu))
 
 	slog.Debug("Encode", "In", cApdu.String(), "Out", out.String(), "Out(bytes)", utils.BytesToHex(out.Encode()))
